@@ -47,7 +47,7 @@ func init() {
 		ID:    "C19",
 		Level: "model_checking",
 		Rule: "explicit-state BFS over all histories of Append/Prepend/Replace x {no args, 1, 2 strings, slices with spare capacity, nil slice} and Clear, from 7 initial lists (nil, empty, spare capacity; Start and X of a qualified identifier the decorator collapsed with all three of its points filled, Start of its Clone, X of a decorated binary expression), " +
-			"depth 7 (quick) / 10 (thorough); after every step: All() == []string model, caller backing arrays bit-identical, later caller mutation invisible, slices returned by earlier All() calls keep their contents, every other decoration list of the decorated file unchanged, printed comments == All() (at every decoration point of every node of a file with many optional parts absent; as a statement's Start decoration and as the Start/X/End decorations of a package-qualified identifier under import management); " +
+			"depth 7 (quick) / 10 (thorough); after every step: All() == []string model, caller backing arrays bit-identical, later caller mutation invisible, slices returned by earlier All() calls keep their contents, every other decoration list of the decorated file unchanged, printed comments == All() (at every decoration point of every node of a file with many optional parts absent; as a statement's Start decoration as the Start/X/End decorations of a package-qualified identifier under import management, and framed by newlines at the Start of an import spec of a block that receives a new import, which must leave the list untouched); " +
 			"state key = (contents relabelled by first occurrence, spare capacity); non-trivial = state with >=2 elements",
 		Assumptions: []string{"methods do not inspect string values (relabelling is a sound canonicalisation)"},
 		Units: func(tier string) []string {
@@ -230,6 +230,9 @@ func c19Exec(cs c19Case) (key string, out core.Outcome) {
 		if err := c19Everywhere(*dp); err != nil {
 			return fail("rendered-differs-at-some-point", "after step %d %s: %v", step, c19OpName(op), err)
 		}
+		if err := c19ImportAdd(*dp); err != nil {
+			return fail("import-managed-render-differs-or-rewrites-the-list", "after step %d %s: %v", step, c19OpName(op), err)
+		}
 		if rendered, err := c19Render(*dp); err != nil {
 			return fail("render-error", "after step %d: %v", step, err)
 		} else if strings.Join(rendered, "\x00") != strings.Join(model, "\x00") {
@@ -396,6 +399,45 @@ func c19Everywhere(d dst.Decorations) error {
 	}()
 	c19EverywhereCache[key] = err
 	return err
+}
+
+// c19ImportAdd attaches the list, framed by newline entries, to the Start of an import spec of a file to
+// which the import-managed restore has to add another import (the restorer re-spaces that block): the
+// comments are rendered as listed, and rendering leaves the list's elements alone.
+func c19ImportAdd(d dst.Decorations) error {
+	list := append(append(dst.Decorations{"\n"}, d...), "\n")
+	before := append([]string{}, list...)
+	spec := &dst.ImportSpec{Path: &dst.BasicLit{Kind: token.STRING, Value: "\"fmt\""}}
+	spec.Decs.Start = list
+	f := &dst.File{Name: dst.NewIdent("a"), Decls: []dst.Decl{
+		&dst.GenDecl{Tok: token.IMPORT, Lparen: true, Rparen: true, Specs: []dst.Spec{spec}},
+		&dst.GenDecl{Tok: token.VAR, Specs: []dst.Spec{&dst.ValueSpec{Names: []*dst.Ident{dst.NewIdent("_")}, Values: []dst.Expr{
+			&dst.CallExpr{Fun: &dst.Ident{Name: "Sprint", Path: "fmt"}, Args: []dst.Expr{&dst.Ident{Name: "EOF", Path: "io"}}}}}}},
+	}}
+	var buf bytes.Buffer
+	var rerr error
+	if p := guard(func() {
+		rerr = decorator.NewRestorerWithImports("example.com/local", simple.New(map[string]string{"fmt": "fmt", "io": "io"})).Fprint(&buf, f)
+	}); p != "" {
+		return fmt.Errorf("import-managed print panicked: %s", p)
+	}
+	if rerr != nil {
+		return rerr
+	}
+	if !reflect.DeepEqual([]string(list), before) {
+		return fmt.Errorf("rendering rewrote the list's elements: %q became %q", before, []string(list))
+	}
+	var cs []string
+	toks, _ := gen.Tokens(buf.String(), true)
+	for _, t := range toks {
+		if t.Tok == token.COMMENT {
+			cs = append(cs, t.Lit)
+		}
+	}
+	if strings.Join(cs, "\x00") != strings.Join([]string(d), "\x00") {
+		return fmt.Errorf("list at the Start of an import spec of a block that receives a new import renders as %q, All() = %q", cs, []string(d))
+	}
+	return nil
 }
 
 func c19RenderPlain(d dst.Decorations) ([]string, error) {
